@@ -112,9 +112,11 @@ func (s *Session) findServiceName(name string) (i services.ServiceInfo, err erro
 	defer s.serviceListMutex.Unlock()
 	for _, service := range s.serviceList {
 		if service.Name == name {
+			vhook.Emit("session", s, "find", "name", name, "id", service.ServiceId, "info", service)
 			return service, nil
 		}
 	}
+	vhook.Emit("session", s, "find", "name", name, "id", uint32(0))
 	return i, fmt.Errorf("Service not found: %s", name)
 }
 
@@ -123,9 +125,11 @@ func (s *Session) findServiceID(uid uint32) (i services.ServiceInfo, err error) 
 	defer s.serviceListMutex.Unlock()
 	for _, service := range s.serviceList {
 		if service.ServiceId == uid {
+			vhook.Emit("session", s, "findid", "uid", uid, "name", service.Name, "info", service)
 			return service, nil
 		}
 	}
+	vhook.Emit("session", s, "findid", "uid", uid, "name", "")
 	return i, fmt.Errorf("Service ID not found: %d", uid)
 }
 
@@ -191,6 +195,8 @@ func NewAuthSession(addr, user, token string) (bus.Session, error) {
 	if err != nil {
 		return nil, fmt.Errorf("list services: %s", err)
 	}
+	vhook.Emit("session", s, "listed", "list", s.serviceList)
+	vhook.Gate("session.new.listed", s)
 	var cancelRemoved, cancelAdded func()
 	cancelRemoved, s.removed, err = s.Directory.SubscribeServiceRemoved()
 	if err != nil {
@@ -204,6 +210,7 @@ func NewAuthSession(addr, user, token string) (bus.Session, error) {
 		cancelRemoved()
 		cancelAdded()
 	}
+	vhook.Emit("session", s, "subscribed")
 	go s.updateLoop()
 	return s, nil
 }
@@ -214,8 +221,11 @@ func NewSession(addr string) (bus.Session, error) {
 }
 
 func (s *Session) updateServiceList() {
+	vhook.Gate("session.update.enter", s)
 	services, err := s.Directory.Services()
+	vhook.Gate("session.update.fetched", s, err)
 	if err != nil {
+		vhook.Emit("session", s, "refresh_failed")
 		log.Printf("error: failed to update service directory list: %s", err)
 		log.Printf("error: closing session.")
 		if err := s.Terminate(); err != nil {
@@ -224,6 +234,7 @@ func (s *Session) updateServiceList() {
 	}
 	s.serviceListMutex.Lock()
 	s.serviceList = services
+	vhook.Emit("session", s, "store", "list", s.serviceList)
 	s.serviceListMutex.Unlock()
 }
 
@@ -232,14 +243,17 @@ func (s *Session) Terminate() error {
 	// prevent Terminate being called twice
 	s.cancelMutex.Lock()
 	if s.cancel != nil {
+		vhook.Gate("session.terminate.cancel", s)
 		s.cancel()
 		s.cancel = nil
+		vhook.Emit("session", s, "cancelled")
 	}
 	s.cancelMutex.Unlock()
 	s.pollMutex.Lock()
 	for _, client := range s.poll {
 		client.Channel().EndPoint().Close()
 	}
+	vhook.Emit("session", s, "terminated", "n", len(s.poll))
 	s.pollMutex.Unlock()
 	return nil
 }
@@ -249,13 +263,17 @@ func (s *Session) updateLoop() {
 		select {
 		case _, ok := <-s.removed:
 			if !ok {
+				vhook.Emit("session", s, "loop_exit", "chan", "removed")
 				return
 			}
+			vhook.Emit("session", s, "signal", "chan", "removed")
 			s.updateServiceList()
 		case _, ok := <-s.added:
 			if !ok {
+				vhook.Emit("session", s, "loop_exit", "chan", "added")
 				return
 			}
+			vhook.Emit("session", s, "signal", "chan", "added")
 			s.updateServiceList()
 		}
 	}
